@@ -21,7 +21,7 @@ META = dict(
     property="C21",
     level="exploration",
     technique="op-list interpreter over a real HTTPChannel with an exact hand-over model (request k is handed over exactly when it is completely delivered and k-1 has finished on a persistent connection), strict parsing of the response stream, per-Deferred firing log; complete enumeration of all event histories up to a depth over fixed 3-request streams + Hypothesis random streams/histories",
-    level_text="All event histories of length <= 7 (quick) / 8 (thorough) over 7 event kinds on two fixed pipelined 3-request streams (and, two events shallower, on a third one whose pipelined 20 kB body crosses the eager-read limit) are enumerated completely; random streams (1..5 requests, GET/HEAD/POST, bodies up to 20 kB to cross the eager-read limit, every segmentation mode) with random histories up to 30 events are sampled. Connection loss is a history event, so it is injected at every event boundary of the enumerated scope. A fair continuation (resume, deliver the rest, finish everything that may finish, then lose the connection) checks that nothing is left unfired or stuck.",
+    level_text="All event histories of length <= 7 (quick) / 8 (thorough) over 7 event kinds on two fixed pipelined 3-request streams (and, two events shallower, on a third one whose pipelined 20 kB body crosses the eager-read limit and a fourth one served through twisted.web.server with framework-emulated HEAD responses) are enumerated completely; random streams (1..5 requests, GET/HEAD/POST, application either a plain http.Request subclass or a twisted.web.server resource -- including GET-only resources whose HEAD requests the framework answers itself by emulating GET, returning bytes or NOT_DONE_YET --, bodies up to 20 kB to cross the eager-read limit, every segmentation mode) with random histories up to 30 events are sampled. Connection loss is a history event, so it is injected at every event boundary of the enumerated scope. A fair continuation (resume, deliver the rest, finish everything that may finish, then lose the connection) checks that nothing is left unfired or stuck.",
     level_note="Trusted: the model in this file, the response-stream parser, a lenient StringTransport as the wire (the harness honours the transport's read-pause and stops delivering after loseConnection, as a real transport does). notifyFinish() is only called on a live request (handed over, unfinished, connection up): a Deferred requested after the response finished or after the loss is outside the statement. Liveness is checked only as quiescence under the harness's continuation.",
     design_ref="§5 C21",
     rule="case = (requests, cuts, ops). non-trivial = stream of >= 3 requests, at least one request finished by a later event (not inside its own hand-over) and the connection lost while a handed-over request was unfinished or a notifyFinish Deferred was pending; distinct by the executed event trace.",
@@ -190,6 +190,7 @@ def run_case(ctx, case):
     w.delivered = 0
     w.trace = []
     w.late_finish = False
+    w.fake_heads = 0
     clock = task.Clock()
 
     def V(sig, detail):
@@ -225,41 +226,95 @@ def run_case(ctx, case):
             k += 1
         return k
 
-    class Req(http.Request):
-        def process(self):
-            k = len(w.handed)
-            if w.lost:
-                V("handed-over-after-connection-lost", f"request {k}")
-            if k >= N:
-                V("more-requests-than-sent", f"hand-over #{k}")
-            unfinished = [j for j, f in enumerate(w.finished) if not f]
-            if unfinished:
-                V("handed-over-while-previous-unfinished", f"request {k} handed over while {unfinished} unfinished")
-            if k > 0 and not persistent(requests[k - 1]):
-                V("handed-over-after-non-persistent-request", f"request {k}")
-            r = requests[k]
-            if self.method != r["method"].encode() or self.uri != b"/%d" % k:
-                V("handed-over-out-of-order", f"hand-over #{k} is {self.method!r} {self.uri!r}")
-            got = self.content.read()
-            if got != req_body(k, r):
-                V("request-body-differs", f"request {k}: {len(got)} bytes {got[:60]!r}, sent {len(req_body(k, r))}")
-            if ends[k] > w.delivered_upto:
-                V("handed-over-before-completely-delivered", f"request {k}")
-            w.handed.append(self)
-            w.finished.append(False)
-            w.writes.append([])
-            w.trace.append(("handover", k))
-            for _ in range(r.get("notify", 0)):
-                notify(k)
-            for j in range(r.get("writes", 0)):
-                do_write(k, b"<%d.s%d>" % (k, j))
-            if r.get("sync_finish") and not r.get("never"):
-                do_finish(k)
+    site_mode = case.get("app") == "site"
 
-    factory = http.HTTPFactory(reactor=clock)
+    def via_fake_head(k):
+        """Request k is a HEAD for a GET-only resource under server.Site: twisted.web.server answers it
+        itself by rendering GET and finishing the response inside the hand-over."""
+        return site_mode and requests[k]["method"] == "HEAD" and bool(requests[k].get("head"))
+
+    def handover(self):
+        """The application is handed a request (http.Request.process / IResource.render)."""
+        k = len(w.handed)
+        if w.lost:
+            V("handed-over-after-connection-lost", f"request {k}")
+        if k >= N:
+            V("more-requests-than-sent", f"hand-over #{k}")
+        unfinished = [j for j, f in enumerate(w.finished) if not f]
+        if unfinished:
+            V("handed-over-while-previous-unfinished", f"request {k} handed over while {unfinished} unfinished")
+        if k > 0 and not persistent(requests[k - 1]):
+            V("handed-over-after-non-persistent-request", f"request {k}")
+        r = requests[k]
+        if self.method != r["method"].encode() or self.uri != b"/%d" % k:
+            V("handed-over-out-of-order", f"hand-over #{k} is {self.method!r} {self.uri!r}")
+        got = self.content.read()
+        if got != req_body(k, r):
+            V("request-body-differs", f"request {k}: {len(got)} bytes {got[:60]!r}, sent {len(req_body(k, r))}")
+        if ends[k] > w.delivered_upto:
+            V("handed-over-before-completely-delivered", f"request {k}")
+        w.handed.append(self)
+        w.finished.append(False)
+        w.writes.append([])
+        w.trace.append(("handover", k))
+        for _ in range(r.get("notify", 0)):
+            notify(k)
+        if via_fake_head(k):
+            return                            # the framework writes and finishes this one
+        for j in range(r.get("writes", 0)):
+            do_write(k, b"<%d.s%d>" % (k, j))
+        if r.get("sync_finish") and not r.get("never"):
+            do_finish(k)
+
+    w.pending_exc = None
+    if not site_mode:
+        class Req(http.Request):
+            def process(self):
+                handover(self)
+
+        factory = http.HTTPFactory(reactor=clock)
+        proto = factory.buildProtocol(None)
+        proto.requestFactory = Req
+    else:
+        from zope.interface import implementer
+        from twisted.web import server
+        from twisted.web.resource import IResource
+        from twisted.web.error import UnsupportedMethod
+
+        @implementer(IResource)
+        class Res:
+            """The application as a twisted.web resource.  For requests marked head=... it allows only
+            GET, so server.Request.render emulates HEAD: it renders GET (which returns the body, or
+            NOT_DONE_YET) and writes + finishes the HEAD response itself, inside the hand-over."""
+            isLeaf = True
+
+            def getChildWithDefault(self, name, request):
+                return self
+
+            def putChild(self, path, child):
+                pass
+
+            def render(self, request):
+                # server.Request.process() swallows every exception: keep ours for the interpreter
+                try:
+                    if getattr(request, "_inFakeHead", False):
+                        k = len(w.handed) - 1
+                        w.finished[k] = True      # before: finish() follows as soon as we return
+                        w.trace.append(("framework-finish", k))
+                        w.fake_heads += 1
+                        return b"<%d.get-body>" % k if requests[k]["head"] == "bytes" else server.NOT_DONE_YET
+                    handover(request)
+                    fake = via_fake_head(len(w.handed) - 1)
+                except BaseException as e:
+                    w.pending_exc = w.pending_exc or e
+                    return server.NOT_DONE_YET
+                if fake:
+                    raise UnsupportedMethod([b"GET"])
+                return server.NOT_DONE_YET
+
+        factory = server.Site(Res(), reactor=clock)
+        proto = factory.buildProtocol(None)
     factory._logDateTime = "01/Jan/2026:00:00:00 +0000"
-    proto = factory.buildProtocol(None)
-    proto.requestFactory = Req
     tr = Transport(lenient=True)
     proto.makeConnection(tr)
     channel = tr.producer
@@ -299,6 +354,8 @@ def run_case(ctx, case):
                     V("notifyfinish-not-failed-by-connection-loss", f"request {r['k']}: {r['results']!r}")
 
     def invariants(after):
+        if w.pending_exc is not None:
+            raise w.pending_exc
         for r in w.recs:
             k = r["k"]
             if len(r["results"]) > 1:
@@ -424,6 +481,8 @@ def run_case(ctx, case):
         invariants(w.trace[-1])
     else:
         wire_check(ctx, case, w, tr.value(), requests, V)
+    if w.pending_exc is not None:
+        raise w.pending_exc
     for r in w.recs:
         if len(r["results"]) != 1:
             V("notifyfinish-never-fired", f"request {r['k']}: {r['results']!r}")
@@ -463,6 +522,13 @@ def run_case(ctx, case):
             break
     if tr.dropped:
         ctx.count("bytes written after loseConnection (dropped)")
+    ctx.count("app=" + ("site (twisted.web.server.Request)" if site_mode else "raw (http.Request)"))
+    if w.fake_heads:
+        ctx.count("HEAD answered by server.Request's GET emulation inside the hand-over")
+        if any(t[0] == "framework-finish" and requests[t[1]]["head"] == "later" for t in w.trace):
+            ctx.count("... with the emulated GET returning NOT_DONE_YET")
+        if any(t[0] == "framework-finish" and t[1] + 1 < len(w.handed) for t in w.trace):
+            ctx.count("... followed by another pipelined response on the same connection")
 
 
 def dumps_requests(requests):
@@ -513,6 +579,12 @@ FIXED_STREAMS = [
                    dict(method="POST", version="1.1", body=20000, notify=1),
                    dict(method="GET", version="1.1", sync_finish=True, writes=1)],
          cuts="big", shallower=2),
+    # twisted.web.server application; HEAD requests for a GET-only resource are answered by the
+    # framework's HEAD emulation (GET returning NOT_DONE_YET / returning bytes) inside the hand-over
+    dict(requests=[dict(method="HEAD", version="1.1", notify=1, head="later"),
+                   dict(method="GET", version="1.1", notify=1, writes=1),
+                   dict(method="HEAD", version="1.1", notify=1, head="bytes")],
+         cuts="req-boundaries", app="site", shallower=2),
 ]
 
 
@@ -535,7 +607,7 @@ def enum_cases(depth, stream_i, prefix):
     cuts = fixed_cuts(fs["cuts"], fs["requests"])
 
     def rec(ops):
-        yield dict(requests=fs["requests"], cuts=cuts, ops=list(ops), strict=True)
+        yield dict(requests=fs["requests"], cuts=cuts, ops=list(ops), strict=True, app=fs.get("app", "raw"))
         if _LAST["abandoned"] or len(ops) >= depth or ops[-1] == ("lose",):
             return
         for o in OPS:
@@ -550,18 +622,19 @@ def _enum_shard(sub, arg):
 
 def case_strategy():
     req = st.builds(
-        lambda method, version, close, body, chunked, chunk, notify, writes, sync_finish, never, lead: dict(
+        lambda method, version, close, body, chunked, chunk, notify, writes, sync_finish, never, lead, head: dict(
             method=method, version=version, close=close, body=body if method == "POST" else 0,
             chunked=chunked and method == "POST" and version == "1.1", chunk=chunk, notify=notify, writes=writes,
-            sync_finish=sync_finish, never=never, lead_crlf=lead),
-        st.sampled_from(["GET", "GET", "POST", "POST", "HEAD"]),
+            sync_finish=sync_finish, never=never, lead_crlf=lead, head=head if method == "HEAD" else None),
+        st.sampled_from(["GET", "GET", "POST", "POST", "HEAD", "HEAD"]),
         st.sampled_from(["1.1"] * 9 + ["1.0"]),
         st.sampled_from([False] * 9 + [True]),
         st.one_of(st.integers(0, 40), st.sampled_from([0, 1, 16384, 20000])),
         st.booleans(), st.sampled_from([1, 3, 7, 5000]),
         st.sampled_from([0, 0, 1, 1, 2]), st.sampled_from([0, 0, 1, 2]),
         st.sampled_from([False, False, True]), st.sampled_from([False] * 7 + [True]),
-        st.sampled_from([False] * 5 + [True]))
+        st.sampled_from([False] * 5 + [True]),
+        st.sampled_from([None, "later", "bytes"]))
     ops = st.lists(st.sampled_from(
         [("deliver",)] * 5 + [("finish",)] * 4 + [("notify",)] * 2 + [("write",)] * 2
         + [("pause",), ("resume",), ("resume",), ("lose",)]), max_size=30)
@@ -570,6 +643,7 @@ def case_strategy():
         cuts=st.one_of(st.just("whole"), st.just("bytewise"),
                        st.lists(st.integers(1, 400), max_size=8),
                        st.lists(st.integers(1, 60000), max_size=6)),
+        app=st.sampled_from(["raw", "raw", "site"]),
         ops=ops)).filter(lambda c: not (c["cuts"] == "bytewise" and any(r["body"] > 2000 for r in c["requests"])))
 
 
@@ -582,7 +656,7 @@ def run(ctx):
     args = [(depth - fs.get("shallower", 0), s, [a, b]) for s, fs in enumerate(FIXED_STREAMS) for a in OPS for b in OPS]
     for si, fs in enumerate(FIXED_STREAMS):       # the histories shorter than the shard prefixes
         cuts = fixed_cuts(fs["cuts"], fs["requests"])
-        enumerate_run(ctx, [dict(requests=fs["requests"], cuts=cuts, ops=list(o), strict=True)
+        enumerate_run(ctx, [dict(requests=fs["requests"], cuts=cuts, ops=list(o), strict=True, app=fs.get("app", "raw"))
                             for o in [[]] + [[a] for a in OPS]], run_case)
     if ctx.thorough:
         ctx.shards(_enum_shard, args)
